@@ -28,8 +28,8 @@ from fractions import Fraction
 from openpyxl.utils import get_column_letter
 
 from harness import tlc, xl
-from harness.checks.c10 import (JVM, brief, cell_content, is_bool, is_universe_number,
-                                literal, mismatch, py_variants, show, text_of, tla_value)
+from harness.checks.c10 import (JVM, brief, cell_content, is_universe_number, literal,
+                                mismatch, py_variants, show, tla_value)
 from harness.evidence import Verdict
 
 PID = 'X01'
@@ -342,6 +342,7 @@ class Binder:
         self.unmodelled = 0
         self.relations = 0
         self.no_library_form = 0
+        self.allow_of = {}
 
     def judge(self, mode, vec, got, extra):
         v = self.v
@@ -350,6 +351,18 @@ class Binder:
         self.by_mode[mode] += 1
         self.by_function[vec['f']] = self.by_function.get(vec['f'], 0) + 1
         why = conforms(got, vec['allow'])
+        if why and vec['f'] in JUNCTIONS and any(
+                k == 'lit' and x[0] == 'S' for k, x in vec['args']):
+            # known finding D64: text written directly into AND/OR/XOR is ignored
+            # like text in a cell.  Attributed only when the result is exactly
+            # what the call without those arguments gives (or #VALUE! when
+            # nothing is left)
+            rest = [a for a in vec['args'] if not (a[0] == 'lit' and a[1][0] == 'S')]
+            pred = self.allow_of.get((vec['f'], json.dumps(rest))) if rest else [['E', '#VALUE!']]
+            if pred is not None and conforms(got, pred) is None:
+                v.known_finding('D64', f"[{mode}] {show_call(vec)}: {why}", dict(
+                    mode=mode, f=vec['f'], args=vec['args'], got=brief(got, 200), **extra))
+                return
         if why:
             allowed = ' or '.join(show(w) if w[0] != 'Z' else 'blank(0)' for w in vec['allow'])
             v.violation(
@@ -376,6 +389,9 @@ class Binder:
     def vectors(self, vectors, label, parallel=False):
         v = self.v
         calls = [x for x in vectors if x['ok']]
+        for x in calls:
+            if x['f'] in JUNCTIONS:
+                self.allow_of[(x['f'], json.dumps(x['args']))] = x['allow']
         orients = [orientations(x, self.rnd) for x in calls]
         for vec, orient in zip(calls, orients):
             if any(w[0] == 'U' for w in vec['allow']):
